@@ -358,7 +358,8 @@ def main():
 
     if page_parser.decoder:
         logger.info(page_parser.decoder.decoding_summary())
-    logger.info(f'AVERAGE PROCESSING TIME {(time.time() - t_start) / len(ids_to_process)}')
+    if len(ids_to_process) > 0:  # nothing left to do, e.g. everything was skipped as already processed
+        logger.info(f'AVERAGE PROCESSING TIME {(time.time() - t_start) / len(ids_to_process)}')
 
 
 if __name__ == "__main__":
